@@ -209,5 +209,11 @@ func init() {
 			}
 			c09Run(o, dirs, rng.Intn(4), rng.Intn(3), "random")
 		}
+		// directives at any depth of generated documents (also under list-valued fields), the document parsed
+		// once and resolved three times with the supplied conditions flipped between the calls
+		for k := 0; k < n/6; k++ {
+			r := rng.Fork()
+			walkReuseCase(o, r, docOpts{collisions: false, abstract: false, maxDepth: 3}, 3)
+		}
 	}
 }
